@@ -79,6 +79,9 @@ def cross_process(h: Harness):
         configs.append([a, r, "split", 3, {"gp": 30}.get(a, 12)])
     for a, r in (("gp", "stack"), ("rs", "stack"), ("gp", "tree"), ("gp", "dsge")):
         configs.append([a, r, "floats", 5, {"gp": 30}.get(a, 12)])
+    # production weights on two abstract symbols, read by the stack mapping; 20 objectives under lexicase selection
+    for a, r, gname in (("rs", "stack", "weighted"), ("gp", "stack", "weighted"), ("gplex", "tree", "plain"), ("gplex", "ge", "full")):
+        configs.append([a, r, gname, 2, {"gp": 30, "gplex": 60}.get(a, 12)])
     envs = [{"PYTHONHASHSEED": "0", "C08_PAD": "0", "C08_IMPORT_ORDER": "a"},
             {"PYTHONHASHSEED": "1", "C08_PAD": "1000", "C08_IMPORT_ORDER": "b", "C08_HOLES": "1"},
             {"PYTHONHASHSEED": "4242", "C08_PAD": "123457", "C08_IMPORT_ORDER": "a"}]
